@@ -69,9 +69,12 @@ NAMES = list(universe())
 DEFAULT_PFC = BibtexFormat().parsing_failed_comment
 
 
+AUTO2 = "auto (an equal string built at run time)"  # marker: mkformat() sets value_column to "".join(["au", "to"])
+
+
 def formats(tier):
     ind = ["", " ", "\t", "    "]
-    vc = [0, 1, 4, 5, 8, 9, 10, 40, "auto"] if tier == "quick" else list(range(0, 41)) + ["auto"]
+    vc = [0, 1, 4, 5, 8, 9, 10, 40, "auto", AUTO2] if tier == "quick" else list(range(0, 41)) + ["auto", AUTO2]
     sep = ["", "\n", "\n\n", " ", "\n% --\n"]
     pfc = [DEFAULT_PFC, "% failed ({n} lines)", "% no placeholder", ""]
     if tier == "quick":
@@ -207,6 +210,9 @@ def shards(tier):
 
 def mkformat(spec):
     f = BibtexFormat()
+    spec = tuple(spec)
+    if spec[1] == AUTO2:
+        spec = (spec[0], "".join(["au", "to"])) + spec[2:]  # equal to, but not, the literal 'auto'
     f.indent, f.value_column, f.trailing_comma, f.block_separator, f.parsing_failed_comment = spec
     return f
 
@@ -272,7 +278,7 @@ def check_lib(names, spec, acc, route, lib=None, case_extra=None):
         acc.violation({"oracle": "library_left_unchanged"}, {"case": case, "observed": "library changed", "expected": "unchanged"})
         return
     indent, vc, trailing, sep, pfc = spec
-    col = auto_column(lib.blocks) if vc == "auto" else vc
+    col = auto_column(lib.blocks) if vc in ("auto", AUTO2) else vc
     enclose = route == "default"
     # walk the output block by block
     pos = 0
@@ -295,7 +301,7 @@ def check_lib(names, spec, acc, route, lib=None, case_extra=None):
                 else:
                     for c2 in range(0, 60):
                         if c2 != col and out.startswith(render_entry(b, spec, c2, enclose), pos):
-                            what = "value_column" + ("_auto" if vc == "auto" else "")
+                            what = "value_column" + ("_auto" if vc in ("auto", AUTO2) else "")
                             break
                 acc.violation(
                     {"oracle": "entry_rendering", "what": what},
